@@ -250,6 +250,12 @@ def r8(ctx, prog):
     ctx.floor(R, 5)
 
 
+def r9(ctx, prog):
+    R = ctx.rule("C09.R9", "nothing leaks out of the abandoned set: a segment un-abandoned by the cursor is re-marked or reclaimed on every path before the next fetch or the return")
+    shared.cursor_pairing(ctx, R, prog)
+    ctx.floor(R, 4)
+
+
 def run(ctx):
     ctx.explanation = ("Static decision of C09's code-shaped necessary conditions over every CFG path of the thread-exit, abandon, un-abandon and "
                        "reclaim functions: ordering (must-pass-through), never-after-publication, guards on adoption (atomic un-abandon result, "
@@ -258,7 +264,7 @@ def run(ctx):
     for c in (["REL"] if ctx.tier == "quick" else ["REL", "SEC", "DBG"]):
         prog = ctx.prog(c)
         n0 = len(ctx.instances)
-        r1(ctx, prog); r2(ctx, prog); r3(ctx, prog); r4(ctx, prog); r5(ctx, prog); r6(ctx, prog); r7(ctx, prog); r8(ctx, prog)
+        r1(ctx, prog); r2(ctx, prog); r3(ctx, prog); r4(ctx, prog); r5(ctx, prog); r6(ctx, prog); r7(ctx, prog); r8(ctx, prog); r9(ctx, prog)
         if c != "REL":
             for i in ctx.instances[n0:]:
                 i["site"] += " [%s]" % c
